@@ -172,6 +172,12 @@ impl<'a, W: AsyncWrite + Unpin> QueryCommandHandler<'a, W> {
                     response_limit,
                     response_offset,
                 );
+                // One event may be the partner in several matched sequences
+                let response_writer = if pipeline.is_sequence_query() {
+                    response_writer.with_repeated_event_ids()
+                } else {
+                    response_writer
+                };
                 response_writer.write(stream).await
             }
             Ok(None) => {
